@@ -142,7 +142,40 @@ CHECKS = {
         'read_binary_output on generated files vs the executable model.',
    note=TB + 'String-level glue (comma/whitespace splitting, lower-casing, UID extraction) is executable model code covered only by the correspondence run; struct/pickle byte level trusted.',
    technique='Lean 4 proof (stream-parser round trip by induction, fold invariants) + differential correspondence on real files',
-   design='5/C17'),
+   design='5/C17'), 'C12': dict(
+   text='Theorems over the reals: 3x3 <-> six-vector is the identity on unit tensors (and the six-vector always has unit norm); eigenvalues '
+        'from lune coordinates have unit norm and are ordered on the fundamental lune; E_GD inverts GD_E for |gamma|<=pi/6, |delta|<pi/2 and '
+        'returns (0, +-pi/2) at the poles; lune coordinates always lie in [-pi/6,pi/6]x[-pi/2,pi/2]; double-couples map to (0,0) and (0,0) is '
+        'the double-couple pattern; the tensor built from Tape parameters has unit Frobenius norm; after the eigen-decomposition the '
+        'source-type pair is recovered exactly and the dip cosine lies in [0,1]. Orientation recovery rests on the C13 theorems '
+        '(SDR recovered from normal/slip; exactly one nodal plane has |slip| < pi/2; auxiliary plane involution). Tie: MT33_MT6, MT6_MT33, '
+        'GD_E, E_GD, Tape_MT33/MT6, MT6_Tape, output_convert (single and batched) vs the executable model fed with NumPy eigh output; '
+        'oracle = round trips, ranges, unit norm on the real code. Partial: the composite MT6->Tape->MT6 statement is tested end to end, proved piecewise.',
+   note=TB + 'numpy.linalg.eigh is external: its output is checked (real, orthonormal, ordered, rebuilds) every run and handed to the model.',
+   technique='Lean 4 proof (trigonometry, Complex.arg for atan2, arccos) + differential correspondence',
+   design='5/C12'),
+ 'C13': dict(
+   text='Theorems over the reals for every strike, dip, rake: slip and normal vectors are unit and perpendicular; T, N, P are orthonormal with '
+        'closed forms (v1 +- v2)/sqrt2; axes -> normal/slip returns the generating vectors; both normal/slip orderings and the axes rebuild '
+        'the same double-couple tensor; returned angles lie in [0,2pi) x [0,pi/2] x [-pi,pi]; normal/slip -> angles recovers the original '
+        'angles (0 < dip <= pi/2); the auxiliary-plane conversion returns the plane whose normal is the input slip vector, its rake lies '
+        'outside [-pi/2,pi/2] when the input rake is inside (exactly one plane in the Tape range), it is an involution and both planes '
+        'reconstruct the same tensor (0 < dip < pi/2); right inverse: angles returned for any unit perpendicular pair reproduce that pair. Tie: '
+        'SDR_TNP, TP_FP, FP_SDR, normal_SD, SDR_SDR, SDR_FP, FP_TNP, TNP_SDR, SDR_SDSD vs the executable model; oracle on the real code.',
+   note=TB + 'Horizontal planes (dip = 0) have no unique strike; only the tensor is compared there. The float-only wrap at strike ~ 2pi is covered by the generator.',
+   technique='Lean 4 proof (polynomial trig identities via linear_combination, Complex.arg polar lemma) + differential correspondence',
+   design='5/C13'),
+ 'C14': dict(
+   text='Theorems over the reals: descending sort is ordered, a permutation and order-independent; an orthonormal eigen-system rebuilds its '
+        'tensor; lune coordinates are invariant under positive scaling and eigenvalue order; Hudson tau,k (on the sorted spectrum) are scale '
+        'invariant, lie in |u| <= 4/3, |v| <= 1 for every spectrum and take the documented values at DC, +-ISO, +-CLVD; crack+double-couple '
+        'parameters -> lune -> parameters is the identity on [0,pi/2) x (-1,1/2) and recovers the opening angle at pi/2; the Voigt permutation '
+        'is an involution, the stiffness matrix symmetric, MT6c_D6 satisfies C.D = M whenever the linear solver does, isotropic stiffness '
+        'acts as lambda tr(D) I + 2 mu D. Tie: MT33_TNPE (eigh spec checked), E_GD, E_tk, E_uv, basic_cdc_GD, GD_basic_cdc, MT6c_D6, '
+        'c21_cvoigt, c_norm, isotropic_c, is_isotropic_c vs the executable model; oracle on the real code.',
+   note=TB + 'numpy.linalg.eigh / solve are external routines whose specifications are checked on their outputs every run.',
+   technique='Lean 4 proof (case analysis with nlinarith for the Hudson bounds, arctan/arccos identities) + differential correspondence',
+   design='5/C14'),
 }
 
 NOT_YET = 'check under construction in this session (model/theorems not yet committed)'
